@@ -33,6 +33,7 @@ pub fn handle(req: &Value) -> Value {
             Ok(files) => json!({"r":"ok","v":files.into_iter().map(|(n, p)| json!([n, p])).collect::<Vec<Value>>()}),
             Err(e) => json!({"r":"err","msg":e}),
         },
+        "read_log" => json!({"r":"ok","v":libmathcat::verif::verif_take_read_log()}),
         "numpat" => {
             let g = |k: &str| req.get(k).and_then(|v| v.as_str()).unwrap_or("").to_string();
             let r = libmathcat::verif::verif_number_patterns(&g("text"), &g("block"), &g("decimal"));
